@@ -172,7 +172,29 @@ Definition ok_kernel (d : dstate) (k : list kroute) : bool :=
 
 (* ------------------------------------------------------------------ correspondence case *)
 
-Record case := mkCase { c_fixed : bool; c_ops : list op; c_routes : list (prefix * route); c_kernel : list kroute }.
+(* the single-family history a dual-stack history amounts to *)
+Definition proj4 (o : op2) : option op :=
+  match o with
+  | P2 false c v => Some (OpPool c v) | P2 true _ _ => None
+  | B2 false c v => Some (OpBlock c v) | B2 true _ _ => None
+  | N2 n v => Some (OpNode n (option_map fst v))
+  | W2 id cs4 _ => Some (OpWep id cs4)
+  end.
+Definition proj6 (o : op2) : option op :=
+  match o with
+  | P2 true c v => Some (OpPool c v) | P2 false _ _ => None
+  | B2 true c v => Some (OpBlock c v) | B2 false _ _ => None
+  | N2 n v => Some (OpNode n (option_map snd v))
+  | W2 id _ cs6 => Some (OpWep id cs6)
+  end.
+Definition ops_of (p : op2 -> option op) (ops : list op2) : list op :=
+  flat_map (fun o => match p o with Some x => [x] | None => [] end) ops.
+
+(* a dual-stack history with, per family, the accumulated route set of the real resolver and the kernel routes of
+   the real managers (IPv6 prefixes and addresses by their last 32 bits under the driver's /96) *)
+Record case := mkCase { c_fixed : bool; c_ops : list op2;
+                        c_routes : list (prefix * route); c_kernel : list kroute;
+                        c_routes6 : list (prefix * route); c_kernel6 : list kroute }.
 
 Definition routes_eqb (m i : list (prefix * route)) : bool :=
   Nat.eqb (length m) (length i)
@@ -182,9 +204,13 @@ Definition routes_eqb (m i : list (prefix * route)) : bool :=
 Definition peers_of (d : dstate) : list (N * N) :=
   flat_map (fun e => match snd e with Some (a, _) => [(fst e, a)] | None => [] end) (d_nodes d).
 
+Definition kernel_agrees (d : dstate) (routes : list (prefix * route)) (k : list kroute) : bool :=
+  same_set kroute_eqb (kernel (peers_of d) routes) k && Nat.eqb (length (kernel (peers_of d) routes)) (length k).
+
 Definition check_case (c : case) : bool * bool :=
-  let d := state_of (c_ops c) in
-  (routes_eqb (s_out (run (c_fixed c) (c_ops c))) (c_routes c)
-   && same_set kroute_eqb (kernel (peers_of d) (c_routes c)) (c_kernel c)
-   && Nat.eqb (length (kernel (peers_of d) (c_routes c))) (length (c_kernel c)),
-   ok_kernel d (c_kernel c)).
+  let d4 := state_of (ops_of proj4 (c_ops c)) in
+  let d6 := state_of (ops_of proj6 (c_ops c)) in
+  let ss := run2 (c_fixed c) (c_ops c) in
+  (routes_eqb (s_out (fst ss)) (c_routes c) && kernel_agrees d4 (c_routes c) (c_kernel c)
+   && routes_eqb (s_out (snd ss)) (c_routes6 c) && kernel_agrees d6 (c_routes6 c) (c_kernel6 c),
+   ok_kernel d4 (c_kernel c) && ok_kernel d6 (c_kernel6 c)).
